@@ -61,6 +61,11 @@ class DMat:
     def as_op(self):
         return Op([(E.num(1), self.name, E.num(1))], None)
 
+    def __truediv__(self, o):
+        if isinstance(o, Col):        # every row j divided by x[j]: the same operator as the row loop builds
+            return Op([(E.num(1) / o.e, self.name, E.num(1))], None)
+        return NotImplemented
+
 
 class DRow:
     """row j of a differentiation matrix"""
@@ -216,7 +221,7 @@ class BlockMatrix:
             lo = s.start if s.start is not None else 0
             lo = lo.block() if isinstance(lo, SymInt) else (0 if lo == 0 else None)
             hi = s.stop
-            hi = hi.block() if isinstance(hi, SymInt) else None
+            hi = hi.block() if isinstance(hi, SymInt) else (lo + 1 if (hi is None and lo is not None) else None)      # `m[nphi:]`: the last block
             if lo is None or hi is None or hi != lo + 1 or s.step is not None:
                 raise TraceAbort('column slice is not one block: %r' % (s,))
             return lo
@@ -398,6 +403,7 @@ class ND:
     def __rmul__(self, o): return self._ew(o, lambda a, b: b * a)
     def __truediv__(self, o): return self._ew(o, lambda a, b: a / b)
     def __neg__(self): return ND(self.shape, {k: -self.get(k) for k in self.keys()}, self.grid_first)
+    def __pow__(self, k): return ND(self.shape, {kk: self.get(kk) ** k for kk in self.keys()}, self.grid_first)
 
     def __iter__(self):
         for i in range(self.shape[0]):
@@ -414,6 +420,13 @@ class Opaque:
 
     def __call__(self, *a):
         return call('spline_' + self.what, *a)
+
+    # arithmetic on a value the model does not follow stays such a value; it can only end in a hand-modelled hole (where it
+    # is replaced by the hole's symbol) or be dropped - an attribute that receives it is simply not part of the model
+    def _absorb(self, *a):
+        return Opaque(self.what if self.what in ('cumsum', 'concatenate') else 'derived')
+    __add__ = __radd__ = __sub__ = __rsub__ = __mul__ = __rmul__ = __truediv__ = __rtruediv__ = _absorb
+    def __neg__(self): return self._absorb()
 
 
 class CoefArr:
@@ -465,6 +478,8 @@ class NP:
                     return OpMatrix() if shape[0].a == 1 else BlockMatrix(shape[0].a)
             if isinstance(shape[0], SymInt) and (shape[0].a, shape[0].b) == (1, 0) and all(isinstance(s, int) for s in shape[1:]):
                 return ND(shape[1:], grid_first=True)
+            if shape and all(isinstance(s, int) and not isinstance(s, bool) for s in shape):
+                return ND(shape, grid_first=True)       # `np.zeros(a.shape)` for a small tensor `a` over the grid (its shape omits the grid axis here)
         raise TraceAbort('np.zeros(%r)' % (shape,))
 
     @staticmethod
@@ -518,6 +533,38 @@ class NP:
     @staticmethod
     def ascontiguousarray(x):
         return x
+
+    @staticmethod
+    def column_stack(xs):
+        return NP.stack(xs, axis=1)
+
+    @staticmethod
+    def cross(a, b):
+        # rows of two (nphi, 3) arrays
+        if isinstance(a, ND) and isinstance(b, ND) and a.shape == (3,) and b.shape == (3,):
+            g = lambda v, k: v.get((k,))
+            out = ND((3,), grid_first=a.grid_first)
+            out.data[(0,)] = g(a, 1) * g(b, 2) - g(a, 2) * g(b, 1)
+            out.data[(1,)] = g(a, 2) * g(b, 0) - g(a, 0) * g(b, 2)
+            out.data[(2,)] = g(a, 0) * g(b, 1) - g(a, 1) * g(b, 0)
+            return out
+        raise TraceAbort('np.cross on unsupported operands')
+
+    @staticmethod
+    def cumsum(x, *a, **k):
+        return Opaque('cumsum')        # a running sum is a loop: only meaningful where a hand-modelled hole takes its result
+
+    @staticmethod
+    def concatenate(xs, *a, **k):
+        if any(isinstance(x, Opaque) for x in xs):
+            return Opaque('concatenate')
+        if len(xs) >= 2 and all(isinstance(x, E) for x in xs):
+            # the right-hand side of a block system put together from its blocks
+            bv = BlockVector(len(xs))
+            for k_, x in enumerate(xs):
+                bv.blocks[k_] = x
+            return bv
+        raise TraceAbort('np.concatenate in translated code')
 
     @staticmethod
     def matmul(a, b):
